@@ -274,7 +274,7 @@ func validateObs(r *core.Run, traces []*fpTrace) map[int]string {
 func validateStrict(r *core.Run, traces []*fpTrace) (accepted int, firstReject string) {
 	// one TLC run per batch; on rejection find the trace by the depth reached and continue after it
 	rest := traces
-	for len(rest) > 0 {
+	for rounds := 0; len(rest) > 0 && rounds < 4; rounds++ {
 		res := r.RunTLC(core.TLCOpts{Module: "FileProtocolTrace", Cfg: "FileProtocolTrace.cfg", Workers: 1,
 			Texts: map[string]string{"trace.ndjson": ndjson(rest)}, Timeout: 10 * time.Minute, KeepOut: true})
 		r.Count("strict_tlc_states", res.Distinct)
@@ -358,17 +358,117 @@ func runC09(r *core.Run) {
 	r.Coverage["states"] = states
 	r.Coverage["transitions"] = trans
 	r.Coverage["mc_configs"] = cfgs
+	r.Coverage["exhaustive"] = false
 
-	var traces []*fpTrace
+	procs := []string{"p1", "p2", "p3"}
+	files := []string{"f1", "f2"}
+	pad := func(ts []*fpTrace) {
+		for _, t := range ts {
+			t.Init = padInit(t.Init, procs, files)
+			for i := range t.Events {
+				for _, f := range files {
+					if _, ok := t.Events[i].Dir[f]; !ok {
+						t.Events[i].Dir[f] = sched.DirF{Ver: -1}
+					}
+				}
+			}
+		}
+	}
+	var all []*fpTrace
+	nev := 0
+	// judge validates a batch with the observation spec; violations are reproduced and reported.
+	judge := func(batch []*fpTrace) bool {
+		pad(batch)
+		for _, t := range batch {
+			nev += len(t.Events)
+			r.Distinct("sched:" + core.JSON(t.Init.Progs) + strings.Join(t.Schedule, ","))
+		}
+		all = append(all, batch...)
+		bad := validateObs(r, batch)
+		idxs := make([]int, 0, len(bad))
+		for i := range bad {
+			idxs = append(idxs, i)
+		}
+		sort.Ints(idxs)
+		reported := map[string]bool{}
+		for _, i := range idxs {
+			t := batch[i]
+			if reported[fpSignature(bad[i], t)] {
+				continue
+			}
+			again := runSchedule(r, t.Init, t.Schedule, "reproduce")
+			pad([]*fpTrace{again})
+			b2 := validateObs(r, []*fpTrace{again})
+			if len(b2) == 0 {
+				core.Fail("observation violation %s did not reproduce for schedule %v", bad[i], t.Schedule)
+			}
+			sig := fpSignature(b2[0], again)
+			reported[sig] = true
+			r.Violation(sig, fmt.Sprintf("%s\nprograms=%s\nschedule=%v", b2[0], core.JSON(t.Init.Progs), t.Schedule),
+				map[string]interface{}{"init": t.Init, "schedule": t.Schedule, "clause": b2[0]})
+		}
+		return len(bad) == 0
+	}
+	finishEvidence := func(drift int, firstDrift string, acc int, rej string) {
+		r.Coverage["traces_validated_against_impl"] = len(all)
+		r.Coverage["trace_events"] = nev
+		r.Coverage["strict_accepted"] = acc
+		r.Coverage["model_drift_replays"] = drift
+		if firstDrift != "" {
+			r.Coverage["model_drift_first"] = firstDrift
+		}
+		if rej != "" {
+			r.Coverage["strict_first_rejection"] = rej
+		}
+		if len(all) > 0 {
+			t := all[len(all)/2]
+			var pts []string
+			for _, e := range t.Events {
+				pts = append(pts, e.P+":"+e.Pt)
+			}
+			r.Sample(map[string]interface{}{"origin": t.Origin, "programs": t.Init.Progs, "events": pts})
+		}
+		if drift > 0 || rej != "" {
+			fmt.Printf("NOTE property=C09 model drift: %d replays diverged; first: %s; strict rejection: %s (verdict taken from the observation specification)\n", drift, firstDrift, rej)
+		}
+	}
 
-	// ---- 2. TLC behaviours replayed on the real code ----------------------
+	// ---- 2. schedules chosen on the real code: systematic preemption -------
+	pairs := [][2]string{{"UC", "UC"}, {"R", "UC"}, {"UC", "R"}, {"RUC", "UC"}, {"UR", "UC"}, {"UCUC", "RUC"}, {"UE", "R"}, {"UC", "UE"},
+		{"U12C", "U21C"}, {"CC", "CC"}, {"CC", "R2"}, {"CR", "CC"}, {"CC", "UC2"}}
+	if !r.Thorough {
+		pairs = pairs[:10]
+	}
+	var batch []*fpTrace
+	for _, pr := range pairs {
+		in := fpInit{Progs: map[string][]sched.Op{"p1": fpProgs[pr[0]], "p2": fpProgs[pr[1]]}, Exists: map[string]bool{"f1": true, "f2": !strings.HasPrefix(pr[0], "C")}}
+		n1 := soloLen(r, in, "p1")
+		for i := 0; i <= n1; i++ {
+			var sc []string
+			for k := 0; k < i; k++ {
+				sc = append(sc, "p1")
+			}
+			for k := 0; k < 80; k++ {
+				sc = append(sc, "p2")
+			}
+			batch = append(batch, runSchedule(r, in, sc, "preempt"))
+			r.Count("preemption_schedules", 1)
+		}
+	}
+	if !judge(batch) {
+		finishEvidence(0, "", 0, "")
+		return
+	}
+
+	// ---- 3. TLC behaviours replayed on the real code ----------------------
 	nsim := 250
 	if r.Thorough {
 		nsim = 3000
 	}
-	genCfgs := []string{"FileProtocolGen_2p1f.cfg", "FileProtocolGen_2p2f.cfg"}
+	genCfgs := []string{"FileProtocolGen_2p1f.cfg", "FileProtocolGen_2p2f.cfg", "FileProtocolGen_create.cfg"}
 	drift := 0
 	firstDrift := ""
+	batch = nil
 	for gi, gc := range genCfgs {
 		var behs []json.RawMessage
 		r.RunTLC(core.TLCOpts{Module: "FileProtocolGen", Cfg: gc, Workers: 1, Simulate: fmt.Sprintf("num=%d", nsim), Depth: 400,
@@ -386,35 +486,25 @@ func runC09(r *core.Run) {
 					firstDrift = t.Drift
 				}
 			}
-			traces = append(traces, t)
+			batch = append(batch, t)
+			if drift > 40 {
+				break // the code no longer follows the model: the remaining replays add nothing
+			}
 		}
+	}
+	if !judge(batch) {
+		finishEvidence(drift, firstDrift, 0, "")
+		return
 	}
 
-	// ---- 3. schedules chosen on the real code ------------------------------
-	pairs := [][2]string{{"UC", "UC"}, {"R", "UC"}, {"UC", "R"}, {"RUC", "UC"}, {"UR", "UC"}, {"UCUC", "RUC"}, {"UE", "R"}, {"UC", "UE"},
-		{"U12C", "U21C"}, {"CC", "CC"}, {"CC", "R2"}, {"CR", "CC"}, {"CC", "UC2"}}
-	if !r.Thorough {
-		pairs = pairs[:10]
-	}
-	for _, pr := range pairs {
-		in := fpInit{Progs: map[string][]sched.Op{"p1": fpProgs[pr[0]], "p2": fpProgs[pr[1]]}, Exists: map[string]bool{"f1": true, "f2": !strings.HasPrefix(pr[0], "C")}}
-		n1 := soloLen(r, in, "p1")
-		// one preemption: p1 runs i steps, then p2 as far as it gets, then p1, ...
-		for i := 0; i <= n1; i++ {
-			var sc []string
-			for k := 0; k < i; k++ {
-				sc = append(sc, "p1")
-			}
-			for k := 0; k < 80; k++ {
-				sc = append(sc, "p2")
-			}
-			t := runSchedule(r, in, sc, "preempt")
-			r.Count("preemption_schedules", 1)
-			traces = append(traces, t)
-		}
-		if r.Thorough {
+	// ---- 4. two preemptions (thorough) and seeded random schedules ----------
+	batch = nil
+	if r.Thorough {
+		for _, pr := range pairs {
+			in := fpInit{Progs: map[string][]sched.Op{"p1": fpProgs[pr[0]], "p2": fpProgs[pr[1]]}, Exists: map[string]bool{"f1": true, "f2": !strings.HasPrefix(pr[0], "C")}}
+			n1 := soloLen(r, in, "p1")
 			n2 := soloLen(r, in, "p2")
-			for i := 0; i <= n1; i += 1 {
+			for i := 0; i <= n1; i++ {
 				for j := 1; j <= n2; j += 2 {
 					var sc []string
 					for k := 0; k < i; k++ {
@@ -426,9 +516,8 @@ func runC09(r *core.Run) {
 					for k := 0; k < 80; k++ {
 						sc = append(sc, "p1")
 					}
-					t := runSchedule(r, in, sc, "preempt2")
+					batch = append(batch, runSchedule(r, in, sc, "preempt2"))
 					r.Count("preemption_schedules", 1)
-					traces = append(traces, t)
 				}
 			}
 		}
@@ -448,7 +537,6 @@ func runC09(r *core.Run) {
 			in.Progs[p] = fpProgs[names[r.Rand.Intn(len(names))]]
 		}
 		var sc []string
-		// random schedule with bursts
 		for k := 0; k < 150; k++ {
 			p := ps[r.Rand.Intn(np)]
 			burst := 1 + r.Rand.Intn(4)
@@ -459,78 +547,17 @@ func runC09(r *core.Run) {
 				sc = append(sc, "T:"+p)
 			}
 		}
-		t := runSchedule(r, in, sc, "random")
+		batch = append(batch, runSchedule(r, in, sc, "random"))
 		r.Count("random_schedules", 1)
-		traces = append(traces, t)
+	}
+	if !judge(batch) {
+		finishEvidence(drift, firstDrift, 0, "")
+		return
 	}
 
-	// ---- 4. validation by TLC ----------------------------------------------
-	procs := []string{"p1", "p2", "p3"}
-	files := []string{"f1", "f2"}
-	for _, t := range traces {
-		t.Init = padInit(t.Init, procs, files)
-		for i := range t.Events {
-			for _, f := range files {
-				if _, ok := t.Events[i].Dir[f]; !ok {
-					t.Events[i].Dir[f] = sched.DirF{Ver: -1}
-				}
-			}
-		}
-	}
-	nev := 0
-	for _, t := range traces {
-		nev += len(t.Events)
-		r.Distinct("sched:" + core.JSON(t.Init.Progs) + strings.Join(t.Schedule, ","))
-	}
-	bad := validateObs(r, traces)
-	acc, rej := validateStrict(r, traces)
-	r.Coverage["traces_validated_against_impl"] = len(traces)
-	r.Coverage["trace_events"] = nev
-	r.Coverage["strict_accepted"] = acc
-	r.Coverage["model_drift_replays"] = drift
-	if firstDrift != "" {
-		r.Coverage["model_drift_first"] = firstDrift
-	}
-	if rej != "" {
-		r.Coverage["strict_first_rejection"] = rej
-	}
-	r.Coverage["exhaustive"] = false
-	if len(traces) > 0 {
-		t := traces[len(traces)/2]
-		var pts []string
-		for _, e := range t.Events {
-			pts = append(pts, e.P+":"+e.Pt)
-		}
-		r.Sample(map[string]interface{}{"origin": t.Origin, "programs": t.Init.Progs, "events": pts})
-	}
-	// verdicts: only the observation spec, and only after the schedule reproduces
-	idxs := make([]int, 0, len(bad))
-	for i := range bad {
-		idxs = append(idxs, i)
-	}
-	sort.Ints(idxs)
-	for _, i := range idxs {
-		t := traces[i]
-		again := runSchedule(r, t.Init, t.Schedule, "reproduce")
-		again.Init = padInit(again.Init, procs, files)
-		for k := range again.Events {
-			for _, f := range files {
-				if _, ok := again.Events[k].Dir[f]; !ok {
-					again.Events[k].Dir[f] = sched.DirF{Ver: -1}
-				}
-			}
-		}
-		b2 := validateObs(r, []*fpTrace{again})
-		if len(b2) == 0 {
-			core.Fail("observation violation %s did not reproduce for schedule %v", bad[i], t.Schedule)
-		}
-		sig := fpSignature(b2[0], again)
-		r.Violation(sig, fmt.Sprintf("%s\nprograms=%s\nschedule=%v", b2[0], core.JSON(t.Init.Progs), t.Schedule),
-			map[string]interface{}{"init": t.Init, "schedule": t.Schedule, "clause": b2[0]})
-	}
-	if drift > 0 || rej != "" {
-		fmt.Printf("NOTE property=C09 model drift: %d replays diverged; first: %s; strict rejection: %s (verdict taken from the observation specification)\n", drift, firstDrift, rej)
-	}
+	// ---- 5. strict layer over everything that ran ---------------------------
+	acc, rej := validateStrict(r, all)
+	finishEvidence(drift, firstDrift, acc, rej)
 }
 
 // fpSignature: clause + the kinds of operations involved (not the schedule itself)
